@@ -1372,9 +1372,9 @@ pub fn record(sink: &Sink, args: &Args) {
     let ev = args.list("events");
     let has = |s: &str| ev.is_empty() || ev.iter().any(|x| x == s);
     if has("kmer-exhaustive") {
-        // every value of every type with K <= 5 (<= 8 thorough); OR-basis + random values above
-        let limit = if thorough { 65536 } else { 1024 };
-        let nrand = if thorough { 300 } else { 40 };
+        // every value of every type with K <= 5 (<= 6 thorough, with every position / run length); OR-basis + random values above
+        let limit = if thorough { 4096 } else { 1024 };
+        let nrand = if thorough { 1500 } else { 40 };
         let rr = &mut r;
         all_kmer_types!(kmer_exhaustive(sink, rr, limit, nrand, thorough));
     }
